@@ -38,6 +38,8 @@
 (*        xy0         x and y origin are 0                                 *)
 (*        tilt        scanner has an intrinsic azimuthal tilt              *)
 (*        geom        "Cylindrical" | "BlocksOnCylindrical" | "Generic"    *)
+(*        uadb        (optional field, see UsesChords) the matrix traces   *)
+(*                    chords between actual detector centres               *)
 (*   sw : [s90, s180, sseg, ss, sz : BOOLEAN]  the switches                *)
 (*        do_symmetry_90degrees_min_phi, _180degrees_min_phi,              *)
 (*        _swap_segment, _swap_s, _shift_z                                 *)
@@ -66,10 +68,16 @@ NoSym == [s90 |-> FALSE, s180 |-> FALSE, sseg |-> FALSE, ss |-> FALSE, sz |-> FA
 (* shift_z is implemented and asking for any other switch disables all;    *)
 (* Generic: no symmetries.                                                 *)
 PhiOffsetZero(c, g) == c.mash = 1 /\ ~g.tilt
+\* ProjMatrixByBinUsingRayTracing with use_actual_detector_boundaries (section 3b).  The unchanged
+\* implementation keeps every symmetry in that mode (known finding C03-uadb); the proposed patch
+\* notes/C03-fix-1.diff drops the two phi symmetries and traverses the chord in the nominal direction.
+\* Set UadbFixApplied to TRUE when that patch is committed.
+UadbFixApplied == FALSE
+UsesChords(g) == "uadb" \in DOMAIN g /\ g.uadb
 EffectiveSwitches(c, g, sw) ==
   LET s180r == sw.s90 \/ sw.s180                      \* constructor: 180 := 90 or 180
       nvw == NumViews(c)
-      inplane == PhiOffsetZero(c, g) /\ ~IsTof(c) /\ g.xy0
+      inplane == PhiOffsetZero(c, g) /\ ~IsTof(c) /\ g.xy0 /\ ~(UadbFixApplied /\ UsesChords(g))
       other == ~IsTof(c) /\ g.xy0
   IN CASE g.geom = "Cylindrical" ->
             [s90 |-> sw.s90 /\ g.square /\ nvw % 4 = 0 /\ inplane,
@@ -260,6 +268,57 @@ IsoLine(op, l) ==
 \* quarter turns only exist when the number of views allows them
 TurnOk(op) == (QuarterTurns(op) * op.nv) % 2 = 0
 
+(* ------------------ 3b. lines between actual detector centres ------------ *)
+(* ProjMatrixByBinUsingRayTracing with use_actual_detector_boundaries (data *)
+(* without view mashing and axial compression) does not trace the nominal   *)
+(* line but the chord between the centres of the two detectors of the bin:  *)
+(*   phi = (det1 + det2) pi/N - pi/2,  s = R sin((det1 - det2) pi/N + pi/2) *)
+(* with the detector numbers of get_det_num_pair_for_view_tangential_pos_   *)
+(* num, which are reduced modulo N.  In units of pi/N:                      *)
+(*   phi2 = det1 + det2 - N/2,   s = R cos(delta pi/N), delta = det1 - det2 *)
+(* Odd tangential positions sit half a view step off the nominal phi        *)
+(* (interleaving) and a wrapped detector number turns phi by 180 degrees,   *)
+(* i.e. reverses the direction in which the oblique line is traversed.      *)
+(* S2det asks of these lines what S2 asks of the nominal ones; TLC decides  *)
+(* for which bins and switches it holds (MC_Symmetries, DetClauses).        *)
+DetPair(c, b) == VT2D(c.N, b.view, b.tang)
+\* s as the class of delta under cos(x) = cos(-x) = cos(x + 2 pi): 0..N, and -s <-> N - s
+SClass(c, delta) == LET m == Mod(delta, 2 * c.N) IN IF m > c.N THEN 2 * c.N - m ELSE m
+LineDet(c, g, b) ==
+  LET d == DetPair(c, b) IN
+  IF UadbFixApplied
+  THEN \* patched: the chord is traversed in the direction of the nominal line of the bin
+       << 2 * b.view - (b.tang % 2), SClass(c, b.tang - c.N \div 2), ZA4(c, g, b), ZB4(c, g, b), b.tof >>
+  ELSE << d[1] + d[2] - c.N \div 2, SClass(c, d[1] - d[2]), ZA4(c, g, b), ZB4(c, g, b), b.tof >>
+CanonDet(c, l) ==
+  LET p == Mod(l[1], 2 * c.N) IN
+  IF p >= c.N THEN << p - c.N, c.N - l[2], l[4], l[3], -l[5] >> ELSE << p, l[2], l[3], l[4], l[5] >>
+IsoLineDet(c, op, l) ==
+  LET k == QuarterTurns(op)
+      det == op.xs * op.ys * (IF op.swap THEN -1 ELSE 1)
+      turn == k * (c.N \div 2)                    \* a quarter turn is N/2 units of pi/N
+      z4(z) == IF op.zq THEN 4 * op.q - z + 4 * op.zs ELSE z + 4 * op.zs
+  IN IF det > 0 THEN << l[1] + turn, l[2], z4(l[3]), z4(l[4]), l[5] >>
+     ELSE << turn - l[1], l[2], z4(l[4]), z4(l[3]), -l[5] >>
+\* s = 0 on a line through the centre: both traversal directions are the same line, and SClass N/2
+\* is its own negative; then (p, N/2, zA, zB) ~ (p + N, N/2, zB, zA) is handled by CanonDet as well
+S2det(c, g, esw, b) ==
+  LET bb == FindBasic(c, esw, b)
+      op == FindOp(c, g, esw, b)
+  IN (c.N * QuarterTurns(op)) % 2 = 0
+     /\ CanonDet(c, IsoLineDet(c, op, LineDet(c, g, bb))) = CanonDet(c, LineDet(c, g, b))
+\* What TLC decides about the chords (MC_Symmetries, Inv6), for data without mashing and compression:
+\* the symmetry relations hold for every bin when neither phi symmetry nor swap_s is enabled
+\* (swap_segment and shift_z are always sound); with the patch, swap_s is sound as well.
+\* With a phi symmetry enabled the relation fails for some bins (odd tangential positions under
+\* reflections; bins with a wrapped detector number); S2det says for which.
+ChordClauses(c, g, esw) ==
+  (~esw.s90 /\ ~esw.s180 /\ (UadbFixApplied \/ ~esw.ss)) => \A b \in AllBins(c) : S2det(c, g, esw, b)
+\* the chord of a bin is its nominal line iff the tangential position is even and no detector
+\* number wrapped the wrong way (phi2 = 2 view, same s)
+DetIsNominal(c, g, b) ==
+  CanonDet(c, LineDet(c, g, b)) = CanonDet(c, << 2 * b.view, SClass(c, b.tang - c.N \div 2), ZA4(c, g, b), ZB4(c, g, b), b.tof >>)
+
 (* ------------------ related bins ---------------------------------------- *)
 InRange(c, b) == b \in AllBins(c)
 \* every bin whose basic bin can be bb lies in this small candidate set
@@ -282,7 +341,7 @@ NumRelated(c, esw, b) ==
 (* ------------------ theorems checked by TLC (MC_Symmetries) ------------- *)
 \* configurations this module describes
 SymConfigOk(c, g) ==
-  /\ LegalConfig(c) /\ ~c.ge /\ c.span % 2 = 1 /\ GridOk(c, g)
+  /\ LegalConfig(c) /\ ~c.ge /\ GridOk(c, g)
   /\ g.geom = "Cylindrical"
   /\ ~TruncSingleRD(c)                      \* see known finding C01-truncseg
 S1(c, g, esw, b) ==
